@@ -169,7 +169,7 @@ class Report(Part):
             "wall_s": round(wall, 2),
             "violations": len(new),
             "known_findings_reproduced": reproduced,
-            "notes": self.notes[:20],
+            "notes": self.notes[:80],
         }
         os.makedirs(os.path.join(VERIF, "evidence"), exist_ok=True)
         evp = os.path.join(VERIF, "evidence", self.prop + ".json")
